@@ -18,7 +18,8 @@ Inductive wvalue :=
 | VSelf                 (* self._name *)
 | VSelfSuffix (k : nat) (* self._name + a constant suffix (k-th suffix of the table) *)
 | VSelfIdx              (* self._name + "_" + index of the current iteration *)
-| VUnknown.
+| VUnknown
+| VSaved.               (* the name read from the SAME object earlier by this call (ASave): it is put back *)
 
 Inductive scope := Once | PerIter | After.
 Inductive scratch := ScrOnce | ScrPerIter | ScrUnknown.
@@ -30,7 +31,8 @@ Inductive access :=
 | AReadBackSelf (sc : scratch) (s : scope) (line : nat)           (* scratch.__dict__[self._name] *)
 | AStoreSelf (line : nat)                                         (* super().__set__(instance, ...) *)
 | AWriteAttr (attr : string) (lazy_const : bool) (line : nat)     (* self.<attr> = <closure over the declaration only> *)
-| AUnrecognised (line : nat).
+| AUnrecognised (line : nat)
+| ASave (t : target) (s : scope) (line : nat).                    (* own_name = getattr(t, "_name", None): saved, restored later *)
 
 Record ventry := { v_name : string; v_file : string; v_acc : list access }.
 
@@ -45,6 +47,7 @@ Definition name_of (f : nat) (v : wvalue) (i : nat) : wexp :=
   | VSelfSuffix k => WConst [f; 100 + k]
   | VSelfIdx => WConst [f; i]
   | VUnknown => WFun (fun _ => [f])
+  | VSaved => WFun (fun h => nth (List.length h - 2) h [])   (* save; write; one use; restore: the read before last *)
   end.
 
 Definition scope_eqb (a b : scope) : bool :=
@@ -61,6 +64,7 @@ Definition act_of (f i : nat) (s : scope) (a : access) : list action :=
                          | Once => [R 5; W 5 (if lc then WConst [77] else WFun (fun h => [77; List.length h]))]
                          | _ => [] end
   | AUnrecognised _ => match s with Once => [W 6 (WFun (fun h => [List.length h])); R 6] | _ => [] end
+  | ASave t s' _ => if scope_eqb s s' then [R (cell_of t i)] else []
   end.
 
 Definition instantiate (e : ventry) (f n : nat) : thread :=
@@ -74,7 +78,8 @@ Definition strip_self (t : thread) : thread :=
 
 (* ---- classification of one validator used as a top-level field ---- *)
 
-Inductive verdict := SafePrivate | SafeIdempotent | Racy | CacheConst | Undecided.
+(* Toggle: a shared name is saved, overwritten and put back (a non-atomic toggle): Global/Toggle.v *)
+Inductive verdict := SafePrivate | SafeIdempotent | Racy | CacheConst | Undecided | Toggle.
 
 Definition is_unrecognised (a : access) : bool := match a with AUnrecognised _ => true | _ => false end.
 Definition is_unknown_scratch (a : access) : bool :=
@@ -87,8 +92,13 @@ Definition attr_const (a : access) : bool := match a with AWriteAttr _ lc _ => l
 Definition sample_threads (e : ventry) : list thread :=
   [strip_self (instantiate e 7 3); strip_self (instantiate e 7 2); strip_self (instantiate e 7 4)].
 
+Definition is_restore (a : access) : bool := match a with AWrite _ VSaved _ _ => true | _ => false end.
+Definition is_save (a : access) : bool := match a with ASave _ _ _ => true | _ => false end.
+Definition has_toggle (e : ventry) : bool := existsb is_restore (v_acc e) || existsb is_save (v_acc e).
+
 Definition classify (e : ventry) : verdict :=
   if existsb is_unrecognised (v_acc e) || existsb is_unknown_scratch (v_acc e) then Undecided
+  else if has_toggle e then Toggle
   else if existsb is_attr (v_acc e)
        then (if forallb attr_const (v_acc e) then CacheConst else Undecided)
   else let ts := sample_threads e in
@@ -102,7 +112,7 @@ Definition verdict_safe (v : verdict) : bool :=
   match v with SafePrivate | SafeIdempotent | CacheConst => true | _ => false end.
 
 Definition verdict_code (v : verdict) : nat :=
-  match v with SafePrivate => 0 | SafeIdempotent => 1 | Racy => 2 | CacheConst => 3 | Undecided => 4 end.
+  match v with SafePrivate => 0 | SafeIdempotent => 1 | Racy => 2 | CacheConst => 3 | Undecided => 4 | Toggle => 5 end.
 
 (* ---- nested declarations: which validators of a field tree rewrite a shared name per element ---- *)
 
